@@ -185,6 +185,7 @@ io_status_t MiniPacketTunnelIOGateway :: DoOutputImplementation(uint32 maxBytes)
                if (defBuf()->GetNumBytes() < writeSize)  // no sense sending deflated data if it didn't actually change anything!
                {
                   memcpy(defBuf()->GetBuffer(), writeBuf, PACKET_HEADER_SIZE);
+                  DefaultEndianConverter::Export(_sendPacketIDCounter|(((uint32)_sendCompressionLevel)<<24), defBuf()->GetBuffer()+(2*sizeof(uint32)));  // the held header may have been patched to level 0 by an earlier attempt that didn't compress
                   writeBuf  = defBuf()->GetBuffer();
                   writeSize = defBuf()->GetNumBytes();
                }
